@@ -59,7 +59,9 @@ def payloads(rng, tier):
         elif kind == "random":
             s = "".join(rng.choice(NUC) for _ in range(len(w)))
         yield "repair", {"k": k, "rows": rows, "v0": v0, "s": s, "w": w, "vt": rng.choice(["none", "right", "wrong", "ofw"]),
-                         "indel": rng.random() < 0.6, "heap": rng.choice([0.5, 1, 10, 1e3, 1e3, 1e9]), "kind": kind}
+                         "indel": rng.random() < 0.6,
+                         "heap": rng.choice([0.5, 1, 10, 1e3, 1e3, 1e9] if kind == "clean" else [0.5, 1, 10, 1e3, 1e3, 5e3]),
+                         "kind": kind}
 
 
 def build(stream, p):
@@ -72,7 +74,7 @@ def build(stream, p):
     elif p["vt"] == "wrong":
         good = formula(s, 3)
         vt = good[:-1] + NUC[(NUC.index(good[-1]) + 2) % 4]
-    call, impl = rc.repair_case_parts(rows, v0, k, s, vt, p["indel"], p["heap"], 6 * len(s) * (1 + 16 * k * k) + 64)
+    call, impl = rc.repair_case_parts(rows, v0, k, s, vt, p["indel"], p["heap"], rc.read_budget(len(s), k))
 
     def oracle(ans, raw):
         if isinstance(raw, BaseException):
